@@ -3,12 +3,15 @@
 package zz_verif
 
 import (
+	"encoding/hex"
+	"encoding/json"
 	"unicode/utf8"
 
 	"berty.tech/go-ipfs-log/entry"
 	"berty.tech/go-ipfs-log/iface"
 	"berty.tech/go-ipfs-log/internal/vx"
 	"github.com/ipfs/go-cid"
+	"github.com/multiformats/go-multibase"
 )
 
 // H_smoke_ident: identity creation and one signed entry through the real provider (engine bring-up).
@@ -91,6 +94,31 @@ func bytesDiffer(a, b []byte) bool {
 var tamperNames = []string{"payload-byte", "payload-length", "log-id", "next-replace", "next-remove", "next-swap", "next-add",
 	"refs-replace", "refs-remove", "refs-swap", "refs-add", "version", "clock-id-bytes", "clock-id-length", "clock-time", "key", "sig"}
 
+// refSigningBytes: the documented signing bytes of an entry (ipfs-log: JSON of hash=null, id, payload, next, refs,
+// v, clock{id,time}), built independently of the code under test.
+func refSigningBytes(e iface.IPFSLogEntry) []byte {
+	enc, err := multibase.NewEncoder(multibase.Base58BTC)
+	if err != nil {
+		panic(err)
+	}
+	nexts := make([]string, len(e.GetNext()))
+	for i, c := range e.GetNext() {
+		nexts[i] = c.Encode(enc)
+	}
+	refs := make([]string, len(e.GetRefs()))
+	for i, c := range e.GetRefs() {
+		refs[i] = c.Encode(enc)
+	}
+	b, err := json.Marshal(map[string]interface{}{
+		"hash": nil, "id": e.GetLogID(), "payload": string(e.GetPayload()), "next": nexts, "refs": refs, "v": e.GetV(),
+		"clock": map[string]interface{}{"id": hex.EncodeToString(e.GetClock().GetID()), "time": e.GetClock().GetTime()},
+	})
+	if err != nil {
+		panic(err)
+	}
+	return b
+}
+
 // H_C07: every single-field modification of a signed entry makes verification fail.
 // The entry is created and signed by the repository's own path (CreateEntryWithIO, OrbitDB provider,
 // keystore); payload bytes, clock id bytes, clock time and the replaced values are symbolic.
@@ -110,6 +138,18 @@ func H_C07() {
 	vx.Assert("C07", err == nil && e != nil, "creating a signed entry succeeds")
 	if err != nil {
 		return
+	}
+	if ver := vx.Param("VER", 2); ver < 2 {
+		// an entry of an earlier format version, signed by hand over the documented signing bytes (what an older
+		// peer produced): the same fields are covered by its signature
+		y := e.Copy()
+		y.SetHash(e.GetHash())
+		y.SetV(uint64(ver))
+		sig, err := ids[0].Provider.Sign(ctx, ids[0], refSigningBytes(y))
+		vx.Assert("C07", err == nil, "signing succeeds")
+		y.SetSig(sig)
+		e = y
+		vx.Cover("older-version-entry")
 	}
 	vx.Assert("C07", e.Verify(ids[0].Provider, io) == nil, "the untampered entry verifies")
 	k := vx.Choice("tamper", len(tamperNames))
